@@ -218,6 +218,7 @@ def do_multi(case):
         w = os.path.join(d, 'w')
         os.mkdir(w)
         expect = {}
+        refs = {}
         names = []
         for k, (rel, lang) in enumerate(files):
             how = rng.choice(['formatted', 'formatted', 'original', 'last_byte', 'drop_final_newline', 'trailing_blank_mid'])
@@ -230,6 +231,7 @@ def do_multi(case):
                 continue
             run.write(os.path.join(w, name), z)
             expect[name] = (ref.out == z)
+            refs[name] = ref.out
             names.append(name)
         if len(names) < 2:
             return [], 'skip', False
@@ -260,6 +262,35 @@ def do_multi(case):
             if p != ok or f != (not ok):
                 fails.append((dict(sig, relation='check-pass-fail-line', want_pass=ok), dict(rep, file=name)))
                 break
+        # the same files through --if-changed in ONE invocation: every target is written iff its file changes, with f(z)
+        before = snapshot(w)
+        args = ['-c', '../c.cfg', '-l', 'C', '-q', '--if-changed', '--suffix', '.new']
+        if via == 'F':
+            args += ['-F', '../list.txt']
+        elif via == 'pos':
+            args += names
+        else:
+            args += names[:len(names) // 2] + ['-F', '../list.txt']
+        r2 = run.run(args, cwd=w)
+        rep2 = {'case': list(case), 'cfg': cfg, 'expect': expect, 'res': r2.brief(), 'mode': 'if-changed multi-file'}
+        sig2 = {'kind': 'multi-ifc', 'via': via}
+        if not r2.timeout:
+            if r2.status != 0 or r2.signal is not None:
+                fails.append((dict(sig2, relation='ifc-exit-status'), rep2))
+            for name in names:
+                t = os.path.join(w, name + '.new')
+                if expect[name] and os.path.exists(t):
+                    fails.append((dict(sig2, relation='ifc-wrote-though-unchanged'), dict(rep2, file=name)))
+                    break
+                if not expect[name] and not os.path.exists(t):
+                    fails.append((dict(sig2, relation='ifc-not-written-though-changed'), dict(rep2, file=name)))
+                    break
+                if not expect[name] and run.read(t) != refs[name]:
+                    fails.append((dict(sig2, relation='ifc-wrong-bytes'), dict(rep2, file=name, got=core.preview(run.read(t), 200))))
+                    break
+            aft = snapshot(w)
+            if any(aft.get(n) != before[n] for n in names):
+                fails.append((dict(sig2, relation='ifc-source-touched'), rep2))
     mixed = len(set(expect.values())) == 2
     return fails, 'mixed' if mixed else ('allpass' if allsame else 'allfail'), mixed
 
